@@ -33,6 +33,7 @@ import (
 	"github.com/sourcenetwork/corekv/badger"
 	"github.com/sourcenetwork/corelog"
 	"github.com/sourcenetwork/immutable"
+	"github.com/sourcenetwork/lens/host-go/config/model"
 
 	"github.com/sourcenetwork/defradb/acp/identity"
 	"github.com/sourcenetwork/defradb/client"
@@ -378,7 +379,34 @@ func (w *c10World) newNode() *core.Node {
 	}
 	_, err = n.DB.AddSchema(w.ctx, c10SDL(w.p.Config, pr.PolicyID))
 	core.Must(err)
+	if w.p.Config != "branchable" {
+		for _, v := range c10Views {
+			_, err = n.DB.AddView(w.ctx, v.Query, v.SDL, immutable.None[model.Lens]())
+			core.Must(err)
+		}
+	}
 	return n
+}
+
+// Views over the collections with a policy. A view is one more query path to the documents of its
+// source: what a requester reads through it must be what the twin (same views, private documents
+// absent) returns. The materialized ones answer from a cache that RefreshViews fills; the harness
+// refreshes both sides (as the identity named by the request) right before every request on such a
+// view, so that the age of the cache is never part of a comparison. The cacheless ones are the control.
+type c10View struct{ Name, Source, Query, SDL string }
+
+var c10Views = []c10View{
+	{"EmpCache", "Emp", `Emp { name salary dept age }`, `type EmpCache { name: String salary: Int dept: String age: Int }`},
+	{"EmpLive", "Emp", `Emp { name salary dept age }`, `type EmpLive @materialized(if: false) { name: String salary: Int dept: String age: Int }`},
+	{"CompCache", "Comp", `Comp { name capital emps { name salary } }`, `type CompCache { name: String capital: Int emps: [CompCacheEmp] }
+interface CompCacheEmp { name: String salary: Int }`},
+	{"CompLive", "Comp", `Comp { name capital emps { name salary } }`, `type CompLive @materialized(if: false) { name: String capital: Int emps: [CompLiveEmp] }
+interface CompLiveEmp { name: String salary: Int }`},
+}
+
+// refreshViews rebuilds the caches of the materialized views of n as actor.
+func (w *c10World) refreshViews(n *core.Node, actor string) error {
+	return n.DB.RefreshViews(w.cx(actor), client.CollectionFetchOptions{})
 }
 
 // do performs a history operation on the real database, then on every twin whose requester can
@@ -809,6 +837,14 @@ type c10Req struct {
 	API     string `json:"api,omitempty"`      // get | exists | docids
 	Col     string `json:"col,omitempty"`
 	DocID   string `json:"doc,omitempty"`
+	// requests on a view: Refresh = identity that calls RefreshViews (both sides) right before the
+	// request (materialized views only); Src = the same request on the view's source collection
+	// (non-triviality: the all-seeing auditor's answer to Src differs from X's answer on the view)
+	Refresh string `json:"refresh_views_as,omitempty"`
+	Src     string `json:"source_request,omitempty"`
+	// create-over: X submits the creation content (hence the docID) of the existing document DocID
+	Input map[string]any `json:"input,omitempty"`
+	Route string         `json:"route,omitempty"` // gql-create | gql-upsert | api-create | api-create-many | api-save
 }
 
 func c10Family(class string) string {
@@ -1059,6 +1095,7 @@ func (g *c10Gen) all() []c10Req {
 	f, _ = g.empFilter()
 	g.add("explain/execute", `query @explain(type: execute) { Emp(filter: %s) { name } }`, f)
 	g.add("explain/execute", `query @explain(type: execute) { Emp { name } }`)
+	g.views()
 	// collection API
 	g.timeTravel()
 	g.out = append(g.out,
@@ -1067,7 +1104,44 @@ func (g *c10Gen) all() []c10Req {
 		c10Req{Class: "api/exists", API: "exists", Col: "Comp", DocID: g.privID("Comp", true), Text: "collection.Exists(private Comp)"},
 		c10Req{Class: "api/docids", API: "docids", Col: "Emp", Text: "collection.GetAllDocIDs(Emp)"},
 	)
+	if c, ok := g.commitOf(true, rng.IntN(2) == 0, true); ok {
+		g.out = append(g.out, c10Req{Class: "api/verify-signature", API: "verify-signature", PrivCid: true, DocID: c.Cid, Text: fmt.Sprintf("db.VerifySignature(%s = cid of a private commit)", c.Cid)})
+	}
 	return g.out
+}
+
+// views generates requests on the views over the policy collections. Every selection carries the
+// alias `v`, so that the answer is textually comparable with the answer to the same request on the
+// view's source collection.
+func (g *c10Gen) views() {
+	rng := g.rng
+	for _, v := range c10Views {
+		kind, refresh := "cacheless", ""
+		if strings.HasSuffix(v.Name, "Cache") {
+			kind = "materialized"
+			// who fills the cache: mostly somebody who can read more than the requester
+			refresh = []string{"owner", "owner", "auditor", "owner2", "anon", g.x}[rng.IntN(6)]
+		}
+		add := func(shape, f string, a ...any) {
+			t := fmt.Sprintf(f, a...)
+			g.out = append(g.out, c10Req{Class: "view/" + kind + "/" + shape, Refresh: refresh,
+				Text: strings.ReplaceAll(t, "$V", v.Name), Src: strings.ReplaceAll(t, "$V", v.Source)})
+		}
+		if v.Source == "Emp" {
+			add("listing", `query { v: $V { name salary dept age } }`)
+			add("filter", `query { v: $V(filter: {salary: {_eq: %s}}) { name salary } }`, c10Val(g.secret("Emp", "salary", 20)))
+			add("filter", `query { v: $V(filter: {name: {_eq: %s}}) { name dept } }`, c10Val(g.secret("Emp", "name", "S1")))
+			add("order-limit", `query { v: $V(order: [{salary: %s}, {name: ASC}], limit: %d) { name salary } }`, g.dir(), 1+rng.IntN(3))
+			add("aggregate", `query { v: _count($V: {}) }`)
+			add("aggregate", `query { v: %s($V: {field: salary}) }`, []string{"_sum", "_avg", "_min", "_max"}[rng.IntN(4)])
+			add("groupby", `query { v: $V(groupBy: [dept]) { dept _count(_group: {}) _group { name } } }`)
+		} else {
+			add("listing", `query { v: $V { name capital } }`)
+			add("join", `query { v: $V { name emps { name salary } } }`)
+			add("filter", `query { v: $V(filter: {capital: {_eq: %s}}) { name capital } }`, c10Val(g.secret("Comp", "capital", 777)))
+			add("aggregate", `query { v: _sum($V: {field: capital}) }`)
+		}
+	}
 }
 
 // timeTravel generates the requests that read a document at a commit. They are part of every burst
@@ -1143,7 +1217,68 @@ func (g *c10Gen) mutations() []c10Req {
 		out = append(out, c10Req{Class: "delete/by-filter", Mut: "delete", Col: "Emp", Probe: fmt.Sprintf(`query { Emp(filter: %s) { _docID } }`, f2),
 			Text: fmt.Sprintf(`mutation { delete_Emp(filter: %s) { _docID } }`, f2)})
 	}
+	// create with the creation content (hence the docID) of an existing document
+	// (the anchor history makes its fixed attempts at its very end, see createOverPhase)
+	routes := []string{"gql-create", "gql-create", "gql-upsert", "api-create", "api-create-many", "api-save"}
+	for _, live := range []bool{true, false} {
+		if g.w.p.Anchor {
+			break
+		}
+		col := []string{"Emp", "Emp", "Comp"}[rng.IntN(3)]
+		id := g.privID(col, true)
+		if !live {
+			if id = g.privDeleted("Emp"); g.w.docs[id] == nil || !g.w.docs[id].Deleted {
+				continue
+			}
+		}
+		if q, ok := g.w.createOverReq(g.x, id, routes[rng.IntN(len(routes))]); ok && !(subsOpen && !live) {
+			out = append(out, q)
+		}
+	}
 	return out
+}
+
+// createOverReq builds the request that submits the creation content of document id once more.
+func (w *c10World) createOverReq(x, id, route string) (c10Req, bool) {
+	d := w.docs[id]
+	if d == nil || id == w.sentID {
+		return c10Req{}, false
+	}
+	if w.visible(x, d) {
+		switch route { // these would take their update branch
+		case "gql-upsert":
+			route = "gql-create"
+		case "api-save":
+			route = "api-create"
+		}
+	}
+	var in map[string]any
+	for _, op := range w.log {
+		if op.Kind == "create" && op.DocID == id {
+			in = op.Input
+			break
+		}
+	}
+	if in == nil {
+		return c10Req{}, false
+	}
+	state := "live"
+	if d.Deleted {
+		state = "deleted"
+	}
+	q := c10Req{Class: "create-over/" + state, Mut: "create-over", Col: d.Col, DocID: id, Input: in, Route: route}
+	switch route {
+	case "gql-create":
+		q.Text = fmt.Sprintf(`mutation { create_%s(input: %s) { _docID } }`, d.Col, c10Val(in))
+	case "gql-upsert":
+		// the filter matches nothing the requester can read, so the create branch is taken
+		upd := "{name: " + c10Val(in["name"]) + "}"
+		q.Text = fmt.Sprintf(`mutation { upsert_%s(filter: {_docID: {_eq: %q}}, create: %s, update: %s) { _docID } }`, d.Col, id, c10Val(in), upd)
+	default:
+		q.API = route
+		q.Text = fmt.Sprintf("collection.%s(%s %s)", strings.TrimPrefix(route, "api-"), d.Col, c10Val(in))
+	}
+	return q, true
 }
 
 // c10RequestTimeout is the per-request hang watchdog (every property presupposes that calls return).
@@ -1225,11 +1360,39 @@ func (w *c10World) run0(n *core.Node, actor string, q c10Req) c10Resp {
 	if q.API == "" {
 		return c10GQL(ctx, n, q.Text)
 	}
+	if q.API == "verify-signature" {
+		if err := n.DB.VerifySignature(ctx, q.DocID, c10Ident(0).PublicKey()); err != nil {
+			return c10Resp{Errs: []string{err.Error()}}
+		}
+		return c10Resp{Data: "verified"}
+	}
 	col, err := n.DB.GetCollectionByName(ctx, q.Col)
 	if err != nil {
 		return c10Resp{Errs: []string{err.Error()}}
 	}
 	switch q.API {
+	case "api-create", "api-create-many", "api-save":
+		b, err := json.Marshal(q.Input)
+		core.Must(err)
+		doc, err := client.NewDocFromJSON(b, col.Definition())
+		if err != nil {
+			return c10Resp{Errs: []string{err.Error()}}
+		}
+		if doc.ID().String() != q.DocID {
+			panic("harness: creation content does not reproduce the docID: " + doc.ID().String() + " vs " + q.DocID)
+		}
+		switch q.API {
+		case "api-create":
+			err = col.Create(ctx, doc)
+		case "api-create-many":
+			err = col.CreateMany(ctx, []*client.Document{doc})
+		default:
+			err = col.Save(ctx, doc)
+		}
+		if err != nil {
+			return c10Resp{Errs: []string{err.Error()}}
+		}
+		return c10Resp{Data: strconv.Quote(doc.ID().String())}
 	case "get", "get-deleted":
 		id, err := client.NewDocIDFromString(q.DocID)
 		if err != nil {
@@ -1365,6 +1528,19 @@ func c10EmptyLists(s string) bool {
 // tag ("" | "after-grant" | "after-revoke") replaces the family in signature and coverage.
 func (w *c10World) eval(x string, q c10Req, tag string) (c10Resp, bool) {
 	tw := w.twins[x]
+	if q.Refresh != "" {
+		// a request on a materialized view: both caches are rebuilt right before it
+		er, et := w.refreshViews(w.real, q.Refresh), w.refreshViews(tw.node, q.Refresh)
+		w.r.Count("view_refreshes", 1)
+		if er != nil || et != nil {
+			if fmt.Sprint(er) != fmt.Sprint(et) {
+				w.violate("materialized-view/refresh-fails-on-one-side", fmt.Sprintf("RefreshViews as %s: real database %v, twin of %s %v", q.Refresh, er, x, et),
+					map[string]any{"requester": x, "refreshed_as": q.Refresh, "real": fmt.Sprint(er), "twin": fmt.Sprint(et)})
+			}
+			w.r.Note("view_refresh_refused")
+			return c10Resp{}, false
+		}
+	}
 	t0 := time.Now()
 	real := w.run(w.real, x, q)
 	t1 := time.Now()
@@ -1387,6 +1563,14 @@ func (w *c10World) eval(x string, q c10Req, tag string) (c10Resp, bool) {
 	nontrivial := !aud.equal(real)
 	if q.PrivCid {
 		nontrivial = true
+	}
+	if q.Src != "" {
+		// views: the private documents matter when the auditor reads something else from the source collection
+		aud = w.run(w.real, "auditor", c10Req{Class: q.Class, Text: q.Src})
+		nontrivial = !aud.equal(real) && c10SortedLists(aud.Data) != c10SortedLists(real.Data)
+		if nontrivial {
+			w.r.Count("nt:"+strings.Join(strings.Split(class, "/")[:2], "/"), 1)
+		}
 	}
 	if nontrivial && tag == "" {
 		w.r.Count("nt:"+class, 1)
@@ -1434,8 +1618,29 @@ func (w *c10World) eval(x string, q c10Req, tag string) (c10Resp, bool) {
 	if q.PrivCid && kind == "real-data-twin-error" && c10EmptyLists(real.Data) {
 		sig = "names-private-cid/empty-result-instead-of-not-found-error"
 		msg = fmt.Sprintf("requester %s: a request that names the cid of a private commit answers with an empty list; on the twin the same request fails with a not-found error", x)
+	} else if q.PrivCid && q.API == "verify-signature" && kind == "error-text-differs" {
+		sig = "names-private-cid/verify-signature/refusal-instead-of-not-found-error"
+		msg = fmt.Sprintf("requester %s: VerifySignature for the cid of a private commit is refused with %q; on the twin the same call fails with a not-found error (%q)", x, strings.Join(real.Errs, "; "), strings.Join(twin.Errs, "; "))
 	} else if q.PrivCid {
 		sig = "names-private-cid/" + fam + "/" + kind
+	} else if strings.HasPrefix(class, "view/materialized/") {
+		sig = "materialized-view/" + kind
+		msg = fmt.Sprintf("requester %s, %s request on a materialized view over a collection with a document policy (cache refreshed by %s): the answer differs from the answer of the twin that never contained the unreadable documents (%s)", x, class, q.Refresh, kind)
+		// root cause visible in the answer: it is what the refreshing identity reads from the source
+		// collection, or it carries the name of a document the requester cannot read
+		asRefresher := w.run(w.real, q.Refresh, c10Req{Class: q.Class, Text: q.Src})
+		leaks := len(asRefresher.Errs) == 0 && c10SortedLists(asRefresher.Data) == c10SortedLists(real.Data)
+		for _, d := range w.docs {
+			if name, _ := d.Fields["name"].(string); !w.visible(x, d) && name != "" && strings.Contains(real.Data, strconv.Quote(name)) {
+				leaks = true
+			}
+		}
+		if leaks {
+			sig = "materialized-view/serves-what-the-refreshing-identity-may-read"
+			msg = fmt.Sprintf("requester %s reads through a materialized view what %s, who called RefreshViews, can read from the source collection: the cache is filled with the refreshing identity's view and served to every requester without an access check", x, q.Refresh)
+		}
+	} else if strings.HasPrefix(class, "view/cacheless/") {
+		sig = "cacheless-view/" + kind
 	} else if fam == "explain" && kind == "values-differ" {
 		sig = "explain-execute/statistics-count-unreadable-documents"
 		msg = fmt.Sprintf("requester %s: the execution statistics of an @explain(type: execute) request (docFetches / indexFetches / fieldFetches) count documents the requester cannot read", x)
@@ -1449,6 +1654,10 @@ func (w *c10World) eval(x string, q c10Req, tag string) (c10Resp, bool) {
 // those the twin shows.
 func (w *c10World) mutate(x string, q c10Req) {
 	if w.failed {
+		return
+	}
+	if q.Mut == "create-over" {
+		w.createOver(x, q)
 		return
 	}
 	tw := w.twins[x]
@@ -1523,6 +1732,91 @@ func (w *c10World) mutate(x string, q c10Req) {
 	w.r.Count("mutations_by_requester_with_effect", int64(len(changed)))
 	w.checkTwins(c10Family(q.Class))
 	w.barrier(touched, len(changed) > 1)
+}
+
+// rawDocState: the raw head store and data store of a node (a refused write leaves both untouched).
+func (w *c10World) rawDocState(n *core.Node) map[string]string {
+	out := map[string]string{}
+	for _, pre := range []string{"/db/heads/", "/db/data/"} {
+		for k, v := range n.RawScan(w.ctx, pre) {
+			out[k] = fmt.Sprintf("%x", v)
+		}
+	}
+	return out
+}
+
+// createOver: requester x submits the creation content of an existing document d once more. DocIDs
+// are derived from the content, so this is a write aimed at d. When x cannot read d the statement
+// allows only one outcome for the stored state: nothing changes - the auditor's view of every
+// document, the raw head store and the raw data store stay as they were (what the request ANSWERS is
+// not compared with the twin here: the docID is taken, and no answer can both keep d intact and
+// equal the twin's, where the create simply succeeds). When x can read d the twin holds d too: the
+// answers must be equal and nothing may change on either side.
+func (w *c10World) createOver(x string, q c10Req) {
+	d, tw := w.docs[q.DocID], w.twins[x]
+	vis := w.visible(x, d)
+	before, rawBefore := w.dumpOf(w.real), w.rawDocState(w.real)
+	real := w.run(w.real, x, q)
+	w.histf("%s: %s -> %s %v", x, q.Text, real.Data, real.Errs)
+	if w.failed {
+		return
+	}
+	w.r.Count("evaluations", 1)
+	w.r.Count("req:"+q.Class, 1)
+	w.r.Count("create_over:"+q.Route, 1)
+	if !vis {
+		w.r.Count("nt:"+q.Class, 1)
+		w.r.Nontrivial(q.Class + "|" + x)
+		w.r.Nontrivial("create-over-route|" + q.Route)
+	} else {
+		twinBefore := w.dumpOf(tw.node)
+		twin := w.run(tw.node, x, q)
+		if w.failed {
+			return
+		}
+		if !real.equal(twin) {
+			w.violate("create-over/readable-document/"+c10DiffKind(real, twin), fmt.Sprintf("requester %s re-submits the creation content of a document it can read (%s): the answer of the real database differs from the twin's", x, q.Class),
+				map[string]any{"requester": x, "request": q.Text, "real": real, "twin": twin})
+		}
+		if core.Canon(twinBefore) != core.Canon(w.dumpOf(tw.node)) {
+			w.failed = true // the twin accepted a create of a document it already holds: not comparable any further
+			w.r.Note("create_over_changed_the_twin")
+		}
+	}
+	after, rawAfter := w.dumpOf(w.real), w.rawDocState(w.real)
+	var changed, rawChanged []string
+	for id, row := range after {
+		if before[id] != row {
+			changed = append(changed, id)
+		}
+	}
+	for k, v := range rawAfter {
+		if rawBefore[k] != v {
+			rawChanged = append(rawChanged, k)
+		}
+	}
+	for k := range rawBefore {
+		if _, ok := rawAfter[k]; !ok {
+			rawChanged = append(rawChanged, "removed:"+k)
+		}
+	}
+	sort.Strings(changed)
+	sort.Strings(rawChanged)
+	if len(changed) == 0 && len(rawChanged) == 0 {
+		return
+	}
+	w.failed = true // the model no longer describes the real database
+	if len(rawChanged) > 12 {
+		rawChanged = append(rawChanged[:12], fmt.Sprintf("... (%d more)", len(rawChanged)-12))
+	}
+	detail := map[string]any{"requester": x, "request": q.Text, "route": q.Route, "answer": real, "target_document": q.DocID, "target_readable_by_requester": vis,
+		"target_deleted": d.Deleted, "auditor_view_before": before[q.DocID], "auditor_view_after": after[q.DocID], "documents_changed": changed, "raw_keys_changed": rawChanged}
+	if vis {
+		w.violate("create-over/readable-document/changed-state", fmt.Sprintf("requester %s re-submitted the creation content of an existing document it can read; the stored state changed", x), detail)
+		return
+	}
+	w.violate("create-over/written-on-top-of-unreadable-document", fmt.Sprintf("requester %s, who cannot read document %s, submitted its creation content (%s, document %s): the create was applied on top of the existing document (%d documents differ in the auditor's view, %d raw head/data keys changed)",
+		x, q.DocID, q.Route, map[bool]string{false: "live", true: "deleted"}[d.Deleted], len(changed), len(rawChanged)), detail)
 }
 
 var c10InputRe = regexp.MustCompile(`input: \{(\w+): (\d+)\}`)
@@ -1675,6 +1969,38 @@ func (w *c10World) timeTravelPhase() {
 	}
 }
 
+// viewPhase: every requester sends every request template on the views; the caches of the
+// materialized ones are refreshed by `refresher` ("" = as generated).
+func (w *c10World) viewPhase(refresher string, xs ...string) {
+	for _, x := range xs {
+		if w.failed || w.twins[x] == nil {
+			return
+		}
+		g := &c10Gen{w: w, x: x, rng: w.rng}
+		g.views()
+		for _, q := range g.out {
+			if q.Refresh != "" && refresher != "" {
+				q.Refresh = refresher
+			}
+			if !w.failed {
+				w.eval(x, q, "")
+			}
+		}
+	}
+}
+
+// createOverPhase: fixed create-over attempts (requester, target, route).
+func (w *c10World) createOverPhase(attempts [][3]string) {
+	for _, a := range attempts {
+		if w.failed || w.twins[a[0]] == nil {
+			return
+		}
+		if q, ok := w.createOverReq(a[0], a[1], a[2]); ok {
+			w.mutate(a[0], q)
+		}
+	}
+}
+
 func (w *c10World) mutationBurst(x string, all bool) {
 	if w.failed || w.twins[x] == nil {
 		return
@@ -1814,6 +2140,20 @@ func c10RunAnchor(w *c10World) {
 		w.burst(x, 0)
 	}
 	w.timeTravelPhase()
+	w.viewPhase("owner", c10Requesters...)
+	// creates aimed at existing documents come last: on a tree that applies one, the history ends there
+	w.createOverPhase([][3]string{
+		{"reader", s1, "gql-create"},      // control: reader can read s1 (live, updated twice)
+		{"reader", s1, "api-save"},        // control
+		{"stranger", s2, "api-create"},    // live private, updated
+		{"owner2", sec1, "gql-upsert"},    // private Comp
+		{"reader", s3, "api-create-many"}, // deleted private document
+		{"stranger", s4, "gql-create"},    // deleted private document
+		{"anon", s3, "api-save"},
+		{"anon", s4, "gql-upsert"},
+		{"anon", s2, "api-create"},
+		{"anon", s1, "gql-create"},
+	})
 }
 
 func c10RunRandom(w *c10World) {
@@ -1973,6 +2313,19 @@ func c10RunRandom(w *c10World) {
 		}
 	}
 	w.timeTravelPhase()
+	w.viewPhase("", c10Requesters[rng.IntN(len(c10Requesters))])
+	// creates aimed at existing documents (generated ones are also among the write attempts above)
+	for i := 0; i < 2 && !w.failed; i++ {
+		x := []string{"anon", "anon", "stranger", "reader", "owner2"}[rng.IntN(5)]
+		g := &c10Gen{w: w, x: x, rng: rng}
+		id := g.privID([]string{"Emp", "Emp", "Comp"}[rng.IntN(3)], true)
+		if i == 1 {
+			id = g.privDeleted("Emp")
+		}
+		if q, ok := w.createOverReq(x, id, []string{"gql-create", "gql-upsert", "api-create", "api-create-many", "api-save"}[rng.IntN(5)]); ok {
+			w.mutate(x, q)
+		}
+	}
 }
 
 // c10RunBranchable: a @branchable collection keeps a collection-wide commit DAG. The commits of
@@ -2088,6 +2441,7 @@ var c10Floors = []string{
 	"nt:commits/latest", "nt:commits/latest-field", "nt:version", "nt:docid/single", "nt:docid/list", "nt:showdeleted/listing", "nt:showdeleted/docid",
 	"nt:update/by-id", "nt:update/by-filter", "nt:delete/by-id", "nt:delete/by-filter",
 	"nt:subscription", "nt:after-grant", "nt:after-revoke", "nt:branchable/commits", "twin_rebuilds", "twin_dump_comparisons",
+	"nt:view/materialized", "nt:view/cacheless", "nt:create-over/live", "nt:create-over/deleted",
 }
 
 func init() {
@@ -2096,14 +2450,16 @@ func init() {
 		Rule: "anchor history per schema configuration (plain / single-field indexes / composite index) + generated histories of public and private creates, updates, deletes, " +
 			"grants and revokes (owner, second owner, reader-by-grant, stranger, anonymous, grant to all actors); after every step each restricted requester X sends generated requests " +
 			"(listing, filters on secret fields, order, limit/offset, aggregates, groupBy, joins from both sides, index-backed plans, time travel, commits/latestCommits, _version, by-docID, showDeleted, " +
-			"collection API, update/delete by id and by filter, persistent subscription) to the real database and to a twin built without the documents X cannot read; answers (data and error text) must be equal. " +
+			"collection API, views over the policy collections - materialized (cache refreshed on both sides right before the request, by owner / auditor / anonymous / the requester) and cacheless -, " +
+			"update/delete by id and by filter, create with the creation content of an existing document (GraphQL create/upsert, collection Create/CreateMany/Save; live and deleted targets), persistent subscription) to the real database and to a twin built without the documents X cannot read; answers (data and error text) must be equal. " +
 			"non-trivial = the all-seeing auditor gets a different answer than X (the private documents matter); distinct by (request path class, requester class).",
 		Cases:  c10Cases,
 		Run:    c10Run,
 		Floors: c10Floors, CaseTimeout: 15 * time.Minute, // backstop only: every request has its own 90 s watchdog
 		Assumptions: []string{
 			"signing off and no counter fields: the real database and the twin produce identical commit ids for shared documents (checked at every step by comparing _version cids)",
-			"document creation is outside the statement: creating a document whose content (hence docID) or unique-index value collides with a private document is not generated",
+			"a create whose content (hence docID) is that of an existing unreadable document is a write attempt aimed at it: the stored state (auditor view, raw head and data store) must not change; its ANSWER is not compared with the twin (the docID is taken, the twin's create succeeds). A unique-index collision with a private document is not generated",
+			"materialized views: the age of the cache is not judged - both sides are refreshed (by the same identity) right before every request on such a view",
 			"local document ACP engine; visibility model: public (created without identity), owner, reader/updater relationship, relationship to all actors (*)",
 			"subscription windows are delimited by the notification of a public sentinel document (clock-free); notifications caused by the grant itself are legitimate",
 		},
